@@ -1062,6 +1062,28 @@ func GrammarGen(cfg GenConfig) *rapid.Generator[*Grammar] {
 		}
 		c.g.Rules = append(rules, recRules...)
 		c.g.Entries = append([]string{}, entries...)
+		if cfg.Throw && !cfg.NoSpellings && c.chance(12, "reentrantrecover") {
+			// RA = ( "[" RB? t? %{F} ) //{F} ra ; RB = ( RA "]"? ) //{F} rb : the operator of RA is
+			// entered again while its guarded expression runs, with another operator for the same
+			// label in between; the innermost handler in force is the one of the innermost entry
+			lab := Pick(t, []string{"F1", "F2"}, "reentrantlabel")
+			rec := func() *Expr {
+				c.noCode, c.noThrow = true, true
+				e, _ := c.recExpr()
+				c.noCode, c.noThrow = false, false
+				if cfg.Code && len(c.recRules) > 0 && c.chance(50, "reentrantrecrule") {
+					return &Expr{K: KRef, Name: Pick(t, c.recRules, "reentrantrecname")}
+				}
+				return e
+			}
+			ra := &Rule{Name: "RA", Expr: &Expr{K: KRecover, Labels: []string{lab}, Sub: []*Expr{
+				{K: KSeq, Sub: []*Expr{Lit("["), {K: KOpt, Sub: []*Expr{{K: KRef, Name: "RB"}}}, {K: KOpt, Sub: []*Expr{c.consuming()}}, {K: KThrow, Name: lab}}}, rec()}}}
+			rb := &Rule{Name: "RB", Expr: &Expr{K: KRecover, Labels: []string{lab}, Sub: []*Expr{
+				{K: KSeq, Sub: []*Expr{{K: KRef, Name: "RA"}, {K: KOpt, Sub: []*Expr{Lit("]")}}}}, rec()}}}
+			c.g.Rules = append(c.g.Rules, ra, rb)
+			entries = append(entries, "RA")
+			c.g.Entries = append(c.g.Entries, "RA")
+		}
 		if cfg.StateBlocks && !cfg.NoSpellings && c.chance(10, "mutualstate") {
 			// Grp = "(" Ent* Grp? ")" #{..} ; Ent = Itm "," ; Itm = Grp / t : the sequence of Ent
 			// changes the state only through a reference to a rule that is mutually recursive with
